@@ -9,6 +9,8 @@
 //!   conformance  every kind of answer of the model kernel witnessed on the REAL kernel
 //!   bulk         SAMPLED: one real 8 MiB transfer per stream type
 
+#![allow(dangerous_implicit_autorefs, function_casts_as_integer, unused_assignments)]
+
 mod bulk;
 mod cmsg;
 mod conform;
@@ -61,7 +63,7 @@ fn grid(thorough: bool) -> Grid {
     if thorough {
         Grid { max_len: 5, caps: vec![1, 2, 3, 4, 8, 16], budget: 3, timeouts: vec![0, 1, 999_999_999, 1_000_000_000, 1_500_000_000, 86_400_000_000_000] }
     } else {
-        Grid { max_len: 3, caps: vec![1, 2, 4, 16], budget: 2, timeouts: vec![0, 1, 1_500_000_000] }
+        Grid { max_len: 4, caps: vec![1, 2, 3, 4, 16], budget: 2, timeouts: vec![0, 1, 1_500_000_000] }
     }
 }
 
